@@ -57,6 +57,14 @@ def run(check, tier):
                 kind["instance"] = "reused"
             runs.append(kind)
         cases.append({"runs": runs})
+    # histories that cross the end of daylight saving time in a zone that has it (01:00 UTC on the last Sunday of October)
+    for i in range(12 if tier == "quick" else 200):
+        L = r.randint(3, 6)
+        g = r.choice(S.GROUPS)
+        runs = [{"group": g if r.random() < 0.8 else S.GROUPS[1 - S.GROUPS.index(g)], "instance": r.choice(["new", "reused"]),
+                 "clock": r.choice(["plus1", "plus1", "same"]),
+                 "method": r.choice(["collect_paths", "next_paths", "collect_by_line", "next_by_line"])} for _ in range(L)]
+        cases.append({"runs": runs, "tz": r.choice(["Europe/London", "Europe/Berlin", "WET0WEST,M3.5.0/1,M10.5.0/2"])})
     results = run_cases("history_suite", "case_history", cases, chunk=4)
     lens = {}
     for res in results:
